@@ -155,11 +155,10 @@ def get_type_graph(t: type) -> graphlib.TopologicalSorter[TypeNode]:
             elif is_visited and can_be_cyclic:
                 # A class' qualified name never includes its module,
                 #   the dots in it are the enclosing classes.
-                refname = inspection.qualname(child)
                 module = getattr(child, "__module__", None)
                 is_argument = var is not None
                 ref = refs.forwardref(
-                    refname, is_argument=is_argument, module=module, is_class=True
+                    child, is_argument=is_argument, module=module, is_class=True
                 )
                 uref = refs.forwardref(
                     unwrapped, is_argument=is_argument, module=module, is_class=True
